@@ -2,9 +2,9 @@
    that the failing-input search can compare the real assembler + processor against the very
    spec functions the theorems are about. *)
 From Coq Require Import ZArith List Bool Arith Lia String.
-From MV Require Import Base.Field Core.Op Core.Rpo Vm.Pure Vm.PureProps Gen.AsmGen Asm.Instr
-  Asm.StackInstr Asm.FieldInstr Asm.U32Instr Asm.ImmInstr.
+From MV Require Import Base.Field Core.Op Core.Rpo Vm.Pure Asm.SpecDefs.
 Import ListNotations.
+Open Scope string_scope.
 Open Scope Z_scope.
 
 Record ispec := mkSpec {
@@ -89,6 +89,7 @@ Definition imm_spec (fam : string) (v : Z) : option ispec :=
   else if String.eqb fam "sub" then Some (S0 1 no_pre (fun xs => [fsub (nz xs 0) v]))
   else if String.eqb fam "mul" then Some (S0 1 no_pre (fun xs => [fmul (nz xs 0) v]))
   else if String.eqb fam "div" then Some (S0 1 no_pre (fun xs => [fmul (nz xs 0) (finv v)]))
+  else if String.eqb fam "exp" then Some (S0 1 no_pre (fun xs => [fpow (nz xs 0) v]))
   else if String.eqb fam "eq" then Some (S0 1 no_pre (fun xs => [if nz xs 0 =? v then 1 else 0]))
   else None.
 
